@@ -75,3 +75,15 @@ mut('c07-from-ho-cs-into-hp', ['C07'], 'src/section/hit_objects/decode.rs', "   
 mut('c07-beatmap-skips-events-sprite', ['C07'], 'src/beatmap.rs', "        HitObjects::parse_events(&mut state.hit_objects, line).map_err(ParseBeatmapError::HitOjects)", "        if line.starts_with(\"Sprite\") { return Ok(()); }\n        HitObjects::parse_events(&mut state.hit_objects, line).map_err(ParseBeatmapError::HitOjects)")
 mut('c07-beatmap-metadata-comment-strip', ['C07'], 'src/beatmap.rs', "        Metadata::parse_metadata(&mut state.metadata, line).map_err(ParseBeatmapError::Metadata)", "        Metadata::parse_metadata(&mut state.metadata, crate::util::StrExt::trim_comment(line)).map_err(ParseBeatmapError::Metadata)")
 mut('c07-metadata-state-into', ['C07'], 'src/beatmap.rs', "            beatmap_set_id: metadata.beatmap_set_id,\n            hp_drain_rate: hit_objects.hp_drain_rate,", "            beatmap_set_id: metadata.beatmap_id,\n            hp_drain_rate: hit_objects.hp_drain_rate,", 2)
+# ---- C02
+mut('c02-swap-hp-cs', ['C02'], 'src/encode.rs', "            DifficultyKey::HPDrainRate,\n            self.hp_drain_rate,\n            DifficultyKey::CircleSize,\n            self.circle_size,", "            DifficultyKey::HPDrainRate,\n            self.circle_size,\n            DifficultyKey::CircleSize,\n            self.hp_drain_rate,")
+mut('c02-span-count-off-by-one', ['C02'], 'src/encode.rs', "        span_count = slider.span_count(),\n    )?;", "        span_count = slider.span_count().max(2),\n    )?;")
+mut('c02-drop-title-unicode', ['C02'], 'src/encode.rs', "if !self.title_unicode.is_empty() {", "if false {")
+mut('c02-revert-F2', ['C02'], 'src/encode.rs', "if self.beatmap_set_id > 0 {", "if false {")
+mut('c02-revert-F3', ['C02'], 'src/encode.rs', "            if i > 0 && i == control_points.len() - 1 {\n                needs_explicit_segment = true;\n            }", "")
+mut('c02-break-order', ['C02'], 'src/encode.rs', "                b.start_time,\n                b.end_time\n            )?;", "                b.end_time,\n                b.start_time\n            )?;")
+mut('c02-hold-end-as-duration', ['C02'], 'src/encode.rs', "write!(writer, \"{}:\", hit_object.start_time + h.duration)?;", "write!(writer, \"{}:\", h.duration)?;")
+mut('c02-node-bank-add', ['C02'], 'src/encode.rs', "write!(writer, \"{}:{}\", normal_bank as i32, add_bank as i32)?;", "write!(writer, \"{}:{}\", normal_bank as i32, normal_bank as i32)?;")
+mut('c02-preview-time-u', ['C02'], 'src/encode.rs', "            GeneralKey::PreviewTime,\n            self.preview_time,", "            GeneralKey::PreviewTime,\n            self.preview_time.max(-1),")
+mut('c02-implicit-segment-perfect', ['C02'], 'src/encode.rs', "point.path_type != last_type || point.path_type == Some(PathType::PERFECT_CURVE);", "point.path_type != last_type;")
+mut('c02-sv-precision', ['C02'], 'src/encode.rs', "write!(writer, \"{},{},\", group.time, -100.0 / props.slider_velocity)?;", "write!(writer, \"{},{:.3},\", group.time, -100.0 / props.slider_velocity)?;")
